@@ -301,8 +301,9 @@ def print_raises(src: str) -> bool:
 # --- the console (`sys.stdout`) the evaluation entry points write their progress line to ------------------------
 # kinds: utf8 (the default sink), closed (every write: ValueError), ascii / latin1 / cp1252 (strict: the emoji of the
 # progress line cannot be encoded), asciirepl / asciibs (errors='replace' / 'backslashreplace': everything accepted),
-# failat k / failatv k (the k-th write of the stream's life raises BrokenPipeError / ValueError, all others are swallowed)
-CONSOLE_KINDS = ["utf8", "closed", "ascii", "latin1", "cp1252", "asciirepl", "asciibs", "failat", "failatv"]
+# failat k / failatv k / failnl k (ONE failing call: the k-th evaluation call that writes to the stream meets a failing
+# write - its first write with BrokenPipeError / ValueError, or the newline of its first print; all others are swallowed)
+CONSOLE_KINDS = ["utf8", "closed", "ascii", "latin1", "cp1252", "asciirepl", "asciibs", "failat", "failatv", "failnl"]
 
 
 def console_line(kind: str, k: int = 0) -> str:
@@ -310,17 +311,26 @@ def console_line(kind: str, k: int = 0) -> str:
 
 
 class FailingAt(io.TextIOBase):
-    """text stream whose k-th write (counted from 1) raises; all others are swallowed"""
+    """text stream that fails ONE call: the k-th evaluation call that writes to it (counted from 1) raises at its
+    `at`-th write (1: the text of its first print, 2: the newline); every other write is swallowed.  Counting per
+    call keeps the axis independent of how many lines a call prints."""
 
-    def __init__(self, k, exc):
-        self.k, self.exc, self.n = k, exc, 0
+    def __init__(self, k, exc, at=1):
+        self.k, self.exc, self.at = k, exc, at
+        self.calls = 0          # calls that have written
+        self.in_call = 0        # writes of the current call
+
+    def begin_call(self):
+        self.in_call = 0
 
     def writable(self):
         return True
 
     def write(self, text):
-        self.n += 1
-        if self.n == self.k:
+        self.in_call += 1
+        if self.in_call == 1:
+            self.calls += 1
+        if self.calls == self.k and self.in_call == self.at:
             raise self.exc
         return len(text)
 
@@ -340,6 +350,8 @@ def make_console(kind: str, k: int):
         return FailingAt(k, BrokenPipeError(32, "Broken pipe"))
     if kind == "failatv":
         return FailingAt(k, ValueError("write to a detached console"))
+    if kind == "failnl":
+        return FailingAt(k, BrokenPipeError(32, "Broken pipe"), at=2)
     return None
 
 
@@ -352,6 +364,8 @@ class _OnConsole:
     def __enter__(self):
         self.saved = sys.stdout
         if self.stream is not None:
+            if isinstance(self.stream, FailingAt):
+                self.stream.begin_call()
             sys.stdout = self.stream
 
     def __exit__(self, *a):
